@@ -393,7 +393,7 @@ pub fn run(tier: Tier, seed: u64) -> i32 {
     let acc2 = run_histories(
         seed ^ 0x88,
         per_shard,
-        move |_r| HistCfg { ops: 120, lifecycle_ext: true, w_swap: 30, w_liq: 50, w_fees: 5, w_lifecycle: 10, w_clock: 2, w_setters: 1, ..Default::default() },
+        move |_r| HistCfg { ops: 120, lifecycle_ext: true, allow_adaptive: true, w_swap: 30, w_liq: 50, w_fees: 5, w_lifecycle: 10, w_clock: 2, w_setters: 1, ..Default::default() },
         || vec![Box::new(C08m) as Box<dyn Monitor>],
     );
     acc.merge(acc2);
